@@ -97,6 +97,13 @@ def targets(doc):
     return out
 
 
+_CURRENT_DOC: list = [None]     # the document of the history being run (for the questions asked to the Document about a table)
+
+
+def _doc_of(_obj):
+    return _CURRENT_DOC[0]
+
+
 CURATED = [
     ("Document", "get_formatted_text()", lambda d: d.get_formatted_text()),
     ("Document", "get_formatted_text(rst)", lambda d: d.get_formatted_text(rst_mode=True)),
@@ -125,6 +132,9 @@ CURATED = [
     ("Table", "get_cells(area)", lambda t: t.get_cells((1, 1, 3, 3))),
     ("Table", "get_cells(flat)", lambda t: t.get_cells(flat=True)),
     ("Table", "get_values(flat)", lambda t: t.get_values(flat=True)),
+    ("Table", "Document.get_cell_style_properties(beyond)", lambda t: _doc_of(t).get_cell_style_properties(t.name, (t.width + 3, 0))),
+    ("Table", "Document.get_cell_background_color(beyond)", lambda t: _doc_of(t).get_cell_background_color(t.name, (t.width + 1, max(0, t.height - 1)))),
+    ("Table", "Document.get_cell_style_properties(A1)", lambda t: _doc_of(t).get_cell_style_properties(t.name, "A1")),
     ("Table", "get_values(cell_type)", lambda t: t.get_values(cell_type="all", complete=False)),
     ("Table", "get_column_cells(1)", lambda t: t.get_column_cells(1)),
     ("Table", "get_column_values(last)", lambda t: t.get_column_values(max(0, t.width - 1))),
@@ -292,6 +302,7 @@ def history(args) -> list:
                 t.delete()
     except Exception:  # noqa: BLE001, S110
         pass
+    _CURRENT_DOC[0] = doc
     before = snapshot(doc, ids)
     events = [{"op": "open", "src": os.path.basename(str(src)), "how": "pure", "mem": {}, "mf": []}]
     calls = []
